@@ -10,6 +10,9 @@ K_PRIM_CB = "C18:callback-over-primitive-payload-does-not-compile"
 K_SELF_VT = "C17:self-returning-wrapper-leaves-vtables-uninitialised"
 K_SELF_NOWRAP = "C17:self-returning-entry-has-no-wrapper-for-further-instantiations"
 K_CLASH = "C17:method-name-shared-by-traits-of-a-group-gets-one-wrapper"
+K_CPP_CTXLEAK = "C17:c++:consuming-wrapper-never-releases-its-context-clone"
+K_CPP_NOCTX_CFG = "C18:c++:default_context-NoContext-with-default_container-does-not-compile"
+K_CPP_NO_MU = "C18:c++:RustMaybeUninit-undefined-when-input-has-no-MaybeUninit"
 
 
 def build_tool():
@@ -73,8 +76,10 @@ def syntax_check(d, path, mode):
     return errs
 
 
-def check_model(tool, seed, idx, known, n_repro=4):
+def check_model(tool, seed, idx, known, n_repro=4, mode="C"):
     """returns dict with violations (list of {prop, key, what}), info flags"""
+    if mode == "C++":
+        return check_model_cpp(tool, seed, idx, known, n_repro)
     rng = random.Random(seed)
     model = hdr.gen_model(rng)
     raw, foreign = hdr.render(model)
@@ -211,6 +216,126 @@ def check_model(tool, seed, idx, known, n_repro=4):
                 else:
                     key, what = "C17:context-accounting", f"consuming call: instance released {kv['boxdrops']}x, context cloned {kv['ctxclones']}x / released {kv['ctxdrops']}x, clone-before-call/release-after-call order ok={kv['order_ok']}"
                 viol.append({"prop": "C17", "key": key, "what": f"wrapper {kv['wrapper']} for {e['trait']}::{e['meth']} of {inst.kind} {inst.name} ({inst.cont}, {inst.ctx}): {what}"})
+            arities = [len(set(len(m.args) for m in tr.methods)) >= 2 for tr in model.traits.values()]
+            clash = len(set(m.name for tr in model.traits.values() for m in tr.methods)) < sum(len(tr.methods) for tr in model.traits.values())
+            info["c17_nontrivial"] = bool(any(arities) or (clash and model.groups) or nt)
+    shutil.rmtree(d, ignore_errors=True)
+    return {"viol": viol, "info": info}
+
+
+def check_model_cpp(tool, seed, idx, known, n_repro=4):
+    """the same oracles for cbindgen's C++ output shape (templates; wrappers are member functions,
+    the drop helper is the destructor)"""
+    rng = random.Random(seed ^ 0x5EED_C99)
+    model = hdr.gen_model_cpp(rng)
+    raw, foreign = hdr.render_cpp(model)
+    d = os.path.join(WORK, "hdr", f"p{idx % 64}-{os.getpid()}")
+    shutil.rmtree(d, ignore_errors=True)
+    cfg = prepare_dir(d, raw, model.config)
+    out_path = os.path.join(d, "out.hpp")
+    viol = []
+    info = {"seed": seed, "mode": "C++", "insts": [(i.kind, i.name, i.cont, i.ctx) for i in model.insts], "config": model.config,
+            "traits": {t: [(m.name, m.recv, [a[0] for a in m.args], m.ret[0]) for m in tr.methods] for t, tr in model.traits.items()},
+            "groups": model.groups, "foreign": len(model.foreign), "known_seen": {}, "maybe_uninit_in_input": model.cpp_maybe_uninit}
+
+    def known_or(key, prop, what):
+        if key in known:
+            info["known_seen"][key] = info["known_seen"].get(key, 0) + 1
+        else:
+            viol.append({"prop": prop, "key": key, "what": what})
+
+    pre = ["-c", cfg] if model.config else []
+    r, argv, _ = run_tool(tool, d, pre, ["--config", "cb.toml", "--crate", "api", "-l", "C++", "-o", out_path])
+    if r.returncode != 0 or not os.path.exists(out_path):
+        viol.append({"prop": "C18", "key": "C18:c++:tool-rejects-header", "what": f"cglue-bindgen failed on a C++ header in the supported shape: exit {r.returncode}: {r.stderr[:300]}"})
+        return {"viol": viol, "info": info}
+    out = open(out_path).read()
+    errs = syntax_check(d, out_path, "C++")
+    if errs:
+        msg = errs[0][1]
+        has_obj = any(i[0] == "obj" for i in info["insts"])
+        if not model.cpp_maybe_uninit and has_obj and "RustMaybeUninit" in msg and all("RustMaybeUninit" in l for l in msg.splitlines() if "error" in l):
+            known_or(K_CPP_NO_MU, "C18", f"a C++ header that never mentions MaybeUninit does not compile after post-processing: CGlueObjContainer uses RustMaybeUninit, which is only defined by rewriting cbindgen's `struct MaybeUninit;`: {msg[:300]}")
+        elif model.config.get("default_container") and model.config.get("default_context") == "NoContext" and re.search(r"default (template )?argument", msg):
+            known_or(K_CPP_NOCTX_CFG, "C18", f"with default_container = {model.config['default_container']!r} and the documented default_context = \"NoContext\" the C++ output does not compile (only the container parameter of each template gets a default): {msg[:300]}")
+        else:
+            viol.append({"prop": "C18", "key": "C18:c++:does-not-compile", "what": f"post-processed C++ header rejected by {errs[0][0]} -std=c++11: {msg[:700]}"})
+    digests = {hashlib.sha1(out.encode()).hexdigest()}
+    for k in range(n_repro):
+        o2 = os.path.join(d, f"out{k}.hpp")
+        run_tool(tool, d, pre, ["--config", "cb.toml", "--crate", "api", "--output", o2])
+        if os.path.exists(o2):
+            digests.add(hashlib.sha1(open(o2, "rb").read()).hexdigest())
+    if len(digests) > 1:
+        viol.append({"prop": "C18", "key": "C18:c++:not-reproducible", "what": f"{len(digests)} different outputs over {n_repro + 1} runs of the tool in fresh processes on the same C++ input and configuration"})
+    posn = -1
+    for f in foreign:
+        p = out.find(f, posn + 1)
+        if p < 0:
+            lost = out.find(f) < 0
+            viol.append({"prop": "C18", "key": "C18:c++:foreign-declaration-" + ("lost" if lost else "reordered"), "what": f"a declaration that does not belong to a CGlue construct is {'missing or modified' if lost else 'out of order'} in the C++ output: {f[:160]!r}"})
+            break
+        posn = p
+    info["look_alike"] = any(any(x in f for x in ("Vtbl", "RetTmp", "Container", "Context", "CGlue", "template")) for (_, f) in model.foreign)
+    info["two_ctx"] = len(set(i.ctx for i in model.insts)) >= 2
+    if not errs:
+        drv, plan = hdr.cpp_driver(model, out)
+        open(os.path.join(d, "drv.cpp"), "w").write(drv)
+        rc = subprocess.run(["g++", "-std=c++11", "-O0", "-w", "-o", os.path.join(d, "drv"), os.path.join(d, "drv.cpp"), "-I", d], stdout=subprocess.PIPE, stderr=subprocess.STDOUT, text=True, timeout=300)
+        if rc.returncode != 0:
+            viol.append({"prop": "C17", "key": "C17:c++:wrapper-signature", "what": f"instantiating the object types and calling the member wrappers by their documented names with the entries' own argument types does not compile: {rc.stdout[:700]}"})
+        else:
+            rr = subprocess.run([os.path.join(d, "drv")], stdout=subprocess.PIPE, stderr=subprocess.STDOUT, text=True, timeout=60)
+            if rr.returncode != 0:
+                viol.append({"prop": "C17", "key": "C17:c++:driver-crash", "what": f"the mock driver died with status {rr.returncode} while calling member wrappers"})
+            lines = {}
+            for l in rr.stdout.splitlines():
+                if not (l.startswith("CALL ") or l.startswith("DROP ")):
+                    continue
+                kv = dict(x.split("=", 1) for x in l.split()[1:] if "=" in x)
+                if "slots" in kv and "inst" in kv:
+                    lines.setdefault((int(kv["inst"]), kv["trait"], kv["meth"]), []).append(kv)
+            info["entries"] = len(plan)
+            nt = False
+            for e in plan:
+                inst = model.insts[e["inst"]]
+                rows = lines.get((e["inst"], e["trait"], e["meth"]), [])
+                box, arc = inst.cont == "Box", inst.ctx == "Arc"
+                where = f"of {inst.kind} {inst.name} ({inst.cont}, {inst.ctx})"
+                if not rows:
+                    if rr.returncode == 0:
+                        viol.append({"prop": "C17", "key": "C17:c++:no-report", "what": f"no result for {e['trait']}::{e['meth']} {where}"})
+                    continue
+                kv = rows[0]
+                if e.get("drop"):
+                    if not (kv["slots"] == "0" and int(kv["boxdrops"]) == int(box) and int(kv["ctxdrops"]) == int(arc) and kv["ctxclones"] == "0"):
+                        viol.append({"prop": "C17", "key": "C17:c++:destructor-accounting", "what": f"destructor {where}: released instance {kv['boxdrops']}x, context {kv['ctxdrops']}x, vtable calls {kv['slots']}"})
+                    continue
+                if e["recv"] == "own" and arc:
+                    nt = True
+                if kv["slots"] != "1" or kv["sid"] != kv["want"]:
+                    key, what = "C17:c++:wrong-slot", f"invoked {kv['slots']} vtable entries, slot id {kv['sid']} instead of {kv['want']}"
+                elif kv["cont_ok"] != "1" or kv["inst_ok"] != "1":
+                    key, what = "C17:c++:wrong-container", "did not pass the object's own container"
+                elif kv["args_ok"] != "1":
+                    key, what = "C17:c++:arguments-altered", "the entry did not receive the caller's arguments unchanged and in order"
+                elif kv["ret_ok"] != "1":
+                    key, what = "C17:c++:return-altered", "did not return the entry's result"
+                elif kv["vt_ok"] != "1":
+                    key, what = "C17:c++:returned-object-vtables", "the returned object does not carry the source object's vtable pointer(s)"
+                else:
+                    if e["recv"] == "own":
+                        base_ok = int(kv["boxdrops"]) == int(box) and int(kv["ctxclones"]) == int(arc)
+                        if base_ok and arc and kv["ctxdrops"] == "1":
+                            known_or(K_CPP_CTXLEAK, "C17", f"member wrapper {kv['wrapper']} for the consuming entry {e['trait']}::{e['meth']} {where} clones the context before the call (___ctx) and never releases that clone: context cloned 1x, released 1x (by the callee, for the consumed container); the C wrappers call ctx_arc_drop(&___ctx)")
+                            continue
+                        acct = base_ok and int(kv["ctxdrops"]) == 2 * int(arc) and kv["order_ok"] == "1"
+                    else:
+                        acct = kv["boxdrops"] == "0" and kv["ctxclones"] == "0" and kv["ctxdrops"] == "0"
+                    if acct:
+                        continue
+                    key, what = "C17:c++:context-accounting", f"instance released {kv['boxdrops']}x, context cloned {kv['ctxclones']}x / released {kv['ctxdrops']}x, order ok={kv['order_ok']}"
+                viol.append({"prop": "C17", "key": key, "what": f"member wrapper {kv['wrapper']} for {e['trait']}::{e['meth']} {where}: {what}"})
             arities = [len(set(len(m.args) for m in tr.methods)) >= 2 for tr in model.traits.values()]
             clash = len(set(m.name for tr in model.traits.values() for m in tr.methods)) < sum(len(tr.methods) for tr in model.traits.values())
             info["c17_nontrivial"] = bool(any(arities) or (clash and model.groups) or nt)
